@@ -21,7 +21,7 @@ RULE = ("claims objects generated exhaustively from the JSON value alphabet up t
 ASSUMPTIONS = ["a naive datetime may be read as UTC or as local time (the statement does not say); aware datetimes are instants",
                "fractions of a second of a datetime are dropped towards minus infinity"]
 
-SCALARS = [None, True, False, 0, -1, 2 ** 31, 2 ** 64 + 1, 1.5, -0.0, 1e100, 1e-7, "", "a", "é\u0000\U0001F600", "\"quoted\\", "</script>"]
+SCALARS = [None, True, False, 0, -1, 2 ** 31, 2 ** 64 + 1, 1.5, -0.0, 1e100, 1e-7, "", "a", "é\u0000\U0001F600", "\"quoted\\", "</script>", "cafe\u0301 \u1112\u1161\u11ab", "\u212b \u2126 \uf900", "line\n\u0303"]
 TRANSPORTS = [("jws", "HS256", "oct32"), ("jws", "RS256", "rsa"), ("jws", "ES256", "P-256"), ("jws", "EdDSA", "Ed25519"),
               ("jwe", "dir", "oct16"), ("jwe", "A128KW", "oct16"), ("jwe", "ECDH-ES", "P-256"), ("jwe", "PBES2-HS256+A128KW", "oct20")]
 
